@@ -74,6 +74,25 @@ def run(tier, seed, res):
     wr = core.run_workers(PROP, jobs)
     res.absorb(wr, "rc")
     _collect(res, wr)
+    # (3) the same two parts with the owner's read-only accesses going through the ownership calls; the access at which
+    # known finding C26-K1 manifests ends the history (counted), everything before it and every other outcome is checked
+    if not env_extra:
+        via = {"C26_OWNER_READ_VIA_TRANSFER": "2"}
+        jobs = []
+        for (ndev, L) in plan:
+            for init in (1, 2, 3):
+                for d in range(ndev):
+                    for m in (1, 2, 3):
+                        jobs.append(dict(cmd=[b, "exh", str(ndev), str(init), str(L), str(d), str(m)], env=dict(ASAN, **via), tag="exh_via"))
+        wr = core.run_workers(PROP, jobs)
+        res.absorb(wr, "exhaustive_owner_read_via_transfer")
+        res.coverage["exhaustive_owner_read_via_transfer"] = not (wr.failures or wr.crashes)
+        _collect(res, wr)
+        jobs = [dict(cmd=[b, "rc"], env=dict(ASAN, RC_PARAMS="seed=%d max_success=%d max_size=200" % (seed * 137 + i, per), **via), tag="rc_via")
+                for i in range(n)]
+        wr = core.run_workers(PROP, jobs)
+        res.absorb(wr, "rc_owner_read_via_transfer")
+        _collect(res, wr)
 
 
 def replay(path):
